@@ -8,6 +8,17 @@ from framework import PropertyCheck, Scenario
 from impl import instance_line
 
 
+
+def observers_lines(rng, jobs):
+    """One scenario in three: observers that READ the dispatcher from inside their callbacks are subscribed (a residual graph
+    updater, feature observers): what they do with the query results must not disturb the queries."""
+    if rng.random() >= 0.33 or max(d for job in jobs for _, d in job) >= 2 ** 24:
+        return []
+    out = [f"fres {rng.choice(['disjunctive', 'agent_task', 'agent_task_jobs', 'complete_agent_task'])} 1 1"]
+    for k in rng.sample(["is_completed -", "is_scheduled -", "is_ready -", "earliest_start_time -", "duration -"], rng.randint(0, 3)):
+        out.append("fobs " + k)
+    return out
+
 class Check(PropertyCheck):
     ID = "C06"
     LEAN_MODULE = "JobShopProofs.Properties.C06"
@@ -22,8 +33,8 @@ class Check(PropertyCheck):
     QUICK_N = 300
 
     def make_impl(self, scenario):
-        from impl_ext import ImplRules
-        return ImplRules(scenario.meta.get("filter_style", "callable"))
+        from impl_ext import ImplEnv
+        return ImplEnv(filter_style=scenario.meta.get("filter_style", "callable"))
 
     def generate(self, rng, n, tier):
         if tier == "thorough":
@@ -44,7 +55,7 @@ class Check(PropertyCheck):
             f = rng.choice([["dom"], ["dom", "nidle"], ["nio", "dom"]])
         if gen.has_zero(jobs):
             f = None
-        lines = ["new", instance_line(jobs), gen.filter_line(f), "q current_time", "q completed"]
+        lines = ["new", instance_line(jobs), gen.filter_line(f)] + observers_lines(rng, jobs) + ["q current_time", "q completed"]
         tr = gen.Tracker(jobs)
         M = slices.num_machines_of(jobs)
         n_acc = 0
